@@ -1,7 +1,9 @@
 /-
   The lexers accept the token languages of the grammar (`Digits`, `Mantissa`, `Exponent`,
   `NumLeaf`, `I32Text`, `IsName`) and stop exactly at their end, provided the following
-  character cannot extend the token; `lexDouble` rejects every registered name (`CtxOK`).
+  character cannot extend the token; `parseConst` rejects every registered name that is not
+  itself `inf` / `nan` (`CtxOK'`) — `lexDouble` alone only those that do not start with such a
+  word (`CtxOK`).
 -/
 import Cav.Spec.Grammar
 import Cav.Lemmas.ParseLex
@@ -383,6 +385,18 @@ theorem lexDouble_numLeaf {t : E} {s rest : List Char} (h : NumLeaf t s) (hr : S
   | nan s h => exact lexDouble_nan h
   | inf s h => exact lexDouble_inf h
 
+theorem startsWithAlpha_of_stops {rest : List Char} (h : Stops isAlpha rest) :
+    startsWithAlpha rest = false := by
+  cases rest with
+  | nil => rfl
+  | cons c r => exact h c r rfl
+
+/-- **`parse_const` accepts every number leaf** and stops at its end: a legal continuation of an
+    atom does not start with a letter, so the guard does not fire -/
+theorem parseConst_numLeaf {t : E} {s rest : List Char} (h : NumLeaf t s) (hr : Stops atomCont rest) :
+    parseConst (s ++ rest) = some (rest, t) :=
+  parseConst_of_stop (lexDouble_numLeaf h hr) (startsWithAlpha_of_stops (stops_atomCont hr).2.1)
+
 /-- first character of a number leaf -/
 theorem numLeaf_head {t : E} {s : List Char} (h : NumLeaf t s) :
     ∃ c r, s = c :: r ∧ (isDigit c = true ∨ isAlpha c = true ∨ c = '.' ∨ c = '+') := by
@@ -546,5 +560,113 @@ theorem lexDouble_name {arity : Nat} {ctx : Ctx} {n rest : List Char} {el : CtxE
     rw [this]; rfl
   unfold lexSpecial
   rw [key 'n' 'a' 'n' (by decide) (by decide) hnan, key 'i' 'n' 'f' (by decide) (by decide) hinf]
+
+/-- `tag_no_case` of a three-letter word on a name that is not this word and is followed by a
+    non-letter: no match, or the name is LONGER than the word -/
+theorem tagNoCase_name {n rest : List Char} (hn : IsName n) (hr : Stops isAlpha rest) (x y z : Char)
+    (hy : isAlpha y = true) (hz : isAlpha z = true) (hne : n.map lower ≠ [x, y, z]) :
+    tagNoCase [x, y, z] (n ++ rest) = none ∨
+    ∃ a b c d r, n = a :: b :: c :: d :: r ∧ tagNoCase [x, y, z] (n ++ rest) = some (d :: r ++ rest) := by
+  have short : ∀ s : List Char, ((s.take [x, y, z].length).map lower == [x, y, z]) = false →
+      tagNoCase [x, y, z] s = none := by
+    intro s h
+    unfold tagNoCase
+    rw [h]; rfl
+  cases n with
+  | nil => exact absurd rfl hn.1
+  | cons a n =>
+    cases n with
+    | nil =>
+      left
+      apply short
+      cases hb : ((([a] ++ rest).take [x, y, z].length).map lower == [x, y, z]) with
+      | false => rfl
+      | true =>
+        exfalso
+        have hb := eq_of_beq hb
+        cases rest with
+        | nil => simp at hb
+        | cons d rest =>
+          have : lower d = y := by simp at hb; exact hb.2.1
+          have hd := isAlpha_of_lower (by rw [this]; exact hy)
+          rw [hr d rest rfl] at hd; cases hd
+    | cons b n =>
+      cases n with
+      | nil =>
+        left
+        apply short
+        cases hb : ((([a, b] ++ rest).take [x, y, z].length).map lower == [x, y, z]) with
+        | false => rfl
+        | true =>
+          exfalso
+          have hb := eq_of_beq hb
+          cases rest with
+          | nil => simp at hb
+          | cons d rest =>
+            have : lower d = z := by simp at hb; exact hb.2.2
+            have hd := isAlpha_of_lower (by rw [this]; exact hz)
+            rw [hr d rest rfl] at hd; cases hd
+      | cons c n =>
+        cases n with
+        | nil =>
+          left
+          apply short
+          cases hb : ((([a, b, c] ++ rest).take [x, y, z].length).map lower == [x, y, z]) with
+          | false => rfl
+          | true =>
+            exfalso
+            apply hne
+            simpa using eq_of_beq hb
+        | cons d r =>
+          cases hb : tagNoCase [x, y, z] (a :: b :: c :: d :: r ++ rest) with
+          | none => exact Or.inl rfl
+          | some r' =>
+            right
+            refine ⟨a, b, c, d, r, rfl, ?_⟩
+            unfold tagNoCase at hb
+            split at hb
+            · cases hb; rfl
+            · cases hb
+
+/-- **`parse_const` rejects every registered name** (this is what `CtxOK'` is for): `double` fails
+    on it, or it matches a number word that is only the beginning of the name, and then the guard
+    of `parse_const` discards the match -/
+theorem parseConst_name {arity : Nat} {ctx : Ctx} {n rest : List Char} {el : CtxEl}
+    (hok : CtxOK' arity ctx) (hn : IsName n) (hg : ctx.get (String.ofList n) = some el)
+    (hr : Stops isAlpha rest) : parseConst (n ++ rest) = none := by
+  obtain ⟨p, hp, hpn⟩ := ctx_get_mem hg
+  have hnan := (hok.2 p hp).1
+  have hinf := (hok.2 p hp).2
+  rw [hpn] at hnan hinf
+  have hlex : lexDouble (n ++ rest) = lexSpecial (n ++ rest) := by
+    obtain ⟨c, r, rfl, hc⟩ := isName_head hn
+    rw [lexDouble_eq]
+    show (match lexMant (stripSign (c :: (r ++ rest))).2 with | some (m, fd, r) => _ | none => _) = _
+    rw [lexMant_alpha _ hc]
+  -- a word match on a longer name is discarded
+  have guard : ∀ (a b c d : Char) (r : List Char) (t : E), n = a :: b :: c :: d :: r →
+      lexDouble (n ++ rest) = some (d :: r ++ rest, t) → parseConst (n ++ rest) = none := by
+    intro a b c d r t hn4 hl
+    subst hn4
+    apply parseConst_guard hl
+    · have : (a :: b :: c :: d :: r ++ rest).length - (d :: r ++ rest).length = 3 := by
+        simp only [List.length_cons, List.length_append]; omega
+      rw [this]
+      show isAlpha c = true
+      exact hn.2 c (by simp)
+    · show isAlpha d = true
+      exact hn.2 d (by simp)
+  rcases tagNoCase_name hn hr 'n' 'a' 'n' (by decide) (by decide) hnan with h1 | ⟨a, b, c, d, r, hn4, h1⟩
+  · rcases tagNoCase_name hn hr 'i' 'n' 'f' (by decide) (by decide) hinf with h2 | ⟨a, b, c, d, r, hn4, h2⟩
+    · apply parseConst_of_lexDouble_none
+      rw [hlex]; unfold lexSpecial; rw [h1, h2]
+    · exact guard a b c d r .litInf hn4 (by rw [hlex]; unfold lexSpecial; rw [h1, h2])
+  · exact guard a b c d r .litNan hn4 (by rw [hlex]; unfold lexSpecial; rw [h1])
+
+/-- the old side condition implies the new one -/
+theorem ctxOK_weaken {arity : Nat} {ctx : Ctx} (h : CtxOK arity ctx) : CtxOK' arity ctx := by
+  refine ⟨h.1, fun p hp => ⟨fun e => (h.2 p hp).1 ?_, fun e => (h.2 p hp).2 ?_⟩⟩
+  · rw [List.map_take, e]; rfl
+  · rw [List.map_take, e]; rfl
 
 end Cav.ParseLemmas
